@@ -267,6 +267,8 @@ enum What {
     Regions,
     NoFilters,
     Paging { pages: usize },
+    /// query_singular: the first page only, without a trailing terminator
+    Singular,
 }
 
 fn cases(tier: Tier) -> Vec<(String, What)> {
@@ -278,6 +280,7 @@ fn cases(tier: Tier) -> Vec<(String, What)> {
     for pages in 1 ..= if tier.is_thorough() { 6 } else { 4 } {
         v.push((format!("paging: {pages} pages"), What::Paging { pages }));
     }
+    v.push(("query_singular: first page only".to_string(), What::Singular));
     v
 }
 
@@ -294,7 +297,7 @@ impl Prop for C16 {
          <= 2 (quick) / 3 (thorough); every reached state is re-created in the REAL SearchFilters through the real insertion \
          methods, the real query_specific is run under the virtual network and the emitted request must be `31 region \
          \"0.0.0.0:0\" 00 filter 00` with a filter string that parses under the wiki grammar (\\key\\value pairs, \\nand\\N / \
-         \\nor\\N followed by exactly N pairs) and denotes exactly the reference groups; all 9 regions at depth <= 1. paging: \
+         \\nor\\N followed by exactly N pairs) and denotes exactly the reference groups; all 9 regions at depth <= 1. query_singular: one request seeded 0.0.0.0:0, the first page without a trailing terminator. paging: \
          all page sequences of 1..4 (quick) / 1..6 (thorough) pages with lengths from {0,1,2,230} and the terminator at \
          boundary positions of every page or absent: returned list = entries before the first terminator, in order; request \
          i+1 seeded with the last address of page i; one request per consumed page; nothing after the terminator"
@@ -396,6 +399,37 @@ impl Prop for C16 {
                 }
                 ctx.sample(serde_json::json!({"case": label}));
             }
+            What::Singular => {
+                // first page: length x (terminator last / absent / look-alike last); a second page must never be asked for
+                for len in [0usize, 1, 2, 231] {
+                    for tail in 0 .. 4u8 {
+                        let mut page: Vec<Entry> = (0 .. len).map(|i| entry(i + 1)).collect();
+                        match tail {
+                            1 => page.push(TERMINATOR),
+                            2 => page.push((Ipv4Addr::new(0, 0, 0, 0), 27015)),
+                            3 => page.push((Ipv4Addr::new(10, 9, 9, 9), 0)),
+                            _ => {}
+                        }
+                        let mut expected: Vec<(IpAddr, u16)> = page.iter().map(|e| (IpAddr::V4(e.0), e.1)).collect();
+                        if tail == 1 {
+                            expected.pop();
+                        }
+                        let server = MasterServer::new(vec![page.clone(), vec![entry(900), TERMINATOR]]);
+                        let x = run_query(Box::new(server), Box::new(Faithful), Chooser::new(&[]), || gamedig::valve_master_server::query_singular(Region::Asia, None));
+                        ctx.account(&x, 0);
+                        ctx.distinct_key(&(len, tail));
+                        let sends = all_sends(&x.log);
+                        let shape = format!("first page of {len} addresses, tail variant {tail}");
+                        let req_ok = sends.len() == 1 && matches!(parse_request(&sends[0].1), Ok(r) if r.seed == "0.0.0.0:0" && r.region == 0x04 && r.filter.is_empty());
+                        match &x.outcome {
+                            Outcome::Ok(list) if *list == expected && req_ok => {}
+                            Outcome::Ok(list) => ctx.violation("singular-query", &[len as u32, tail as u32], shape, clip(&format!("{} requests; {list:?}", sends.len()), 300), clip(&format!("1 request seeded 0.0.0.0:0; {expected:?}"), 300), render_log(&x.log)),
+                            other => ctx.violation("singular-query", &[len as u32, tail as u32], shape, other.describe_json(), "Ok(first page)", render_log(&x.log)),
+                        }
+                    }
+                }
+                ctx.sample(serde_json::json!({"case": label}));
+            }
             What::Paging { pages } => {
                 explore(
                     ctx,
@@ -429,6 +463,21 @@ impl Prop for C16 {
                                 term = Some((pi, pos));
                             }
                             layout.push(page);
+                        }
+                        // listed addresses that resemble the terminator in one half only (port 0 / unspecified ip): still servers
+                        let odd = pick(&mut ch, &[0u8, 1, 2, 3]);
+                        if odd != 0 {
+                            let lookalike: Entry = if odd == 2 { (Ipv4Addr::new(0, 0, 0, 0), 27015) } else { (Ipv4Addr::new(10, 9, 9, 9), 0) };
+                            'place: for (pi, page) in layout.iter_mut().enumerate() {
+                                let n = page.len();
+                                for (ei, e) in page.iter_mut().enumerate() {
+                                    // odd = 3: as the last entry of a page (it then seeds the next request)
+                                    if Some((pi, ei)) != term && (odd != 3 || ei + 1 == n) {
+                                        *e = lookalike;
+                                        break 'place;
+                                    }
+                                }
+                            }
                         }
                         let server = MasterServer::new(layout.clone());
                         let x = run_query(Box::new(server), Box::new(Faithful), ch, || {
